@@ -188,8 +188,6 @@ func cmdCheck(args []string) {
 			covers++
 			if o.Verdict != "unsat" {
 				coverOK++
-			} else {
-				failed = append(failed, o)
 			}
 			continue
 		}
@@ -229,6 +227,9 @@ func cmdCheck(args []string) {
 		p := writeReplay(replayDir, &ReplayFile{Property: id, Obligation: oid, Kind: "contract", Outcome: "no-model", Desc: e, Verdict: "n/a"})
 		violations = append(violations, fmt.Sprintf("VIOLATION property=%s replay=%s no-failing-input-found", id, p))
 	}
+	vac, deadRets := vacuous(all)
+	failed = append(failed, vac...)
+	_ = deadRets
 	sort.Slice(failed, func(i, j int) bool { return failed[i].ID < failed[j].ID })
 	for _, o := range failed {
 		if f := openByObl[o.ID]; f != nil {
@@ -247,7 +248,7 @@ func cmdCheck(args []string) {
 			continue
 		}
 		suffix := " no-failing-input-found"
-		if o.Verdict == "sat" {
+		if o.Verdict == "sat" || o.Verdict == "sat-relaxed" {
 			shrinkAndModel(o, opt)
 			rf.Model = compactModel(o.Model)
 			fn := fnOf[o.Func]
